@@ -86,6 +86,7 @@ func init() {
 		},
 		MaxBulk: 80, Keys: []int{12, 64, 300},
 		ValW:    valAll, MaxDepth: 2, MaxElems: 5, AcqW: [3]int{8, 1, 1},
+		HipGroupsPct: 20, DigRootsPct: 15,
 	})
 	register(&PropDef{
 		ID:  "C08",
@@ -164,6 +165,7 @@ func init() {
 		},
 		MaxBulk: 120, Keys: []int{12, 64, 300},
 		ValW:    valAll, MaxDepth: 2, MaxElems: 5, AcqW: [3]int{8, 1, 1},
+		HipGroupsPct: 30, // default-digester collisions: pooled digesters compute their deeper levels
 	})
 	register(&PropDef{
 		ID:  "C04",
